@@ -270,21 +270,16 @@ def precise_diff(
         days_in_last_month = DAYS_PER_MONTHS[leap][month]
         days_in_month = DAYS_PER_MONTHS[int(is_leap(d2.year))][d2.month]
 
-        if d_diff < days_in_month - days_in_last_month:
-            # We don't have a full month, we calculate days
-            if days_in_last_month < d1.day:
-                d_diff += d1.day
-            else:
-                d_diff += days_in_last_month
-        elif d_diff == days_in_month - days_in_last_month:
-            # We have exactly a full month
-            # We remove the days difference
-            # and add one to the months difference
+        if d2.day == days_in_month and d2.day - d1.day == d_diff:
+            # d2 is the last day of its month, d1's day does not exist
+            # in that month and no time was borrowed: adding the months
+            # to d1 lands (clamped) exactly on d2, we have a full month
             d_diff = 0
             m_diff += 1
         else:
-            # We have a full month
-            d_diff += days_in_last_month
+            # We don't have a full month, we count the days from d1's day
+            # (clamped to the length of the previous month)
+            d_diff += max(days_in_last_month, d1.day)
 
         m_diff -= 1
 
